@@ -391,3 +391,129 @@ def rule_PK(ctx):
         raise AnalysisError('pack: concatenation loop not recognised (needs a human)')
     r.ok('concatenation loop')
     return r
+
+
+FLOAT_FUNCS = {'math.log2', 'math.log', 'math.log10', 'math.sqrt', 'math.pow', 'math.exp', 'math.floor', 'math.ceil',
+               'math.frexp', 'math.ldexp', 'math.fmod', 'float', 'round'}
+
+
+def rule_INTEX(ctx):
+    """Integer interpretations are exact for arbitrarily large integers only while every step is integer arithmetic:
+    a true division, a float() conversion or a math.* function on the value path rounds to 53 bits (int(math.log2(2**53))
+    is already wrong by one bit position for 2**53 - 1).  Every function on the call graph below the set/get/read
+    functions of the registry's integer-returning dtypes (uint, int, their byte orders, ue, se, uie, sie) is scanned."""
+    m = ctx.m
+    r = RuleResult('INTEX', 'integer codecs stay in exact integer arithmetic (no true division, float(), math.* on the value path)')
+    roots = []
+    names = []
+    for e in m.registry:
+        if e.get('return_type') != 'int':
+            continue
+        names.append(e['name'])
+        for role in ('set_fn', 'get_fn', 'read_fn'):
+            v = e.get(role)
+            if not v:
+                continue
+            f = m.func_by_dotted(v)
+            if f is None:
+                raise AnalysisError(f'registry function {v} of dtype {e["name"]} not found')
+            for cx in ctx.R.contexts(f):
+                roots.append(ctx.node(f, cx))
+    if len(names) < 10:
+        raise AnalysisError(f'only {len(names)} integer dtypes in the registry (10 confirmed)')
+    par = ctx.reachable(roots)
+    seen = set()
+    for node in par:
+        k = node[0]
+        if k in seen:
+            continue
+        seen.add(k)
+        f = m.funcs[k]
+        if f.mod in ('exceptions', 'bitstring_options'):
+            continue
+        bad = None
+        for x in own_walk(f.node):
+            if isinstance(x, ast.BinOp) and isinstance(x.op, ast.Div):
+                bad = (x, 'true division yields a float')
+            elif isinstance(x, ast.AugAssign) and isinstance(x.op, ast.Div):
+                bad = (x, 'true division yields a float')
+            elif isinstance(x, ast.Call) and ast.unparse(x.func) in FLOAT_FUNCS:
+                bad = (x, f'{ast.unparse(x.func)}() goes through a 53-bit float')
+            elif isinstance(x, ast.BinOp) and isinstance(x.op, ast.Pow) and isinstance(x.right, ast.Constant) and \
+                    (isinstance(x.right.value, float) or (isinstance(x.right.value, int) and x.right.value < 0)):
+                bad = (x, 'power with a float/negative exponent yields a float')
+            elif isinstance(x, ast.Constant) and isinstance(x.value, float) and not _in_message(f, x):
+                bad = (x, 'float literal in integer arithmetic')
+            if bad:
+                break
+        if bad:
+            path = ctx.fmt_path(ctx.path_to(par, node))
+            r.fail(k, bad[0], f'{bad[1]}: integers beyond 2**53 are no longer converted exactly (reached from the integer dtypes: {path})',
+                   loc=f.loc(bad[0]))
+        else:
+            r.ok(k)
+    return r
+
+
+def _in_message(f, node):
+    for x in own_walk(f.node):
+        if isinstance(x, (ast.Raise, ast.JoinedStr)) and any(y is node for y in ast.walk(x)):
+            return True
+    return False
+
+
+def rule_LZ(ctx):
+    """Text forms show every digit, including leading zeros.  An integer rendered with bin()/hex()/oct(), format(x, 'b') or
+    an f-string spec of just b/x/o/X has no leading zeros, so a rendering path that goes through an integer needs an
+    explicit zero-padded width.  Scans every function below str/repr/pp and the str-returning interpretations (bin, hex, oct)."""
+    m = ctx.m
+    r = RuleResult('LZ', 'text renderings never pass bit content through a width-less integer format (leading zeros kept)')
+    roots = []
+    for cls in list(FAMILY) + ['Array']:
+        for name in ('__str__', '__repr__', 'pp', '_str', '_repr'):
+            kind, p = m.lookup(cls, name)
+            if kind == 'method':
+                for f in p:
+                    for cx in ctx.R.contexts(f):
+                        roots.append(ctx.node(f, cx))
+    nstr = 0
+    for e in m.registry:
+        if e.get('return_type') == 'str':
+            nstr += 1
+            for role in ('get_fn', 'read_fn'):
+                v = e.get(role)
+                f = m.func_by_dotted(v) if v else None
+                if f is not None:
+                    for cx in ctx.R.contexts(f):
+                        roots.append(ctx.node(f, cx))
+    if nstr < 3 or len(roots) < 10:
+        raise AnalysisError(f'{nstr} str-returning dtypes / {len(roots)} rendering roots found (3 / 10 confirmed)')
+    par = ctx.reachable(roots)
+    seen = set()
+    for node in par:
+        k = node[0]
+        if k in seen:
+            continue
+        seen.add(k)
+        f = m.funcs[k]
+        bad = None
+        ret = ast.unparse(f.node.returns).strip("'\"") if getattr(f.node, 'returns', None) is not None else ''
+        if ret and not any(t in ret for t in ('str', 'None', 'Any', 'Iterator', 'Iterable', 'List', 'Tuple', 'list', 'tuple')):
+            r.ok(k, trivial=True)      # builds bits or numbers, not text (e.g. an encoder reached through a constructor)
+            continue
+        for x in own_walk(f.node):
+            if isinstance(x, ast.Call) and isinstance(x.func, ast.Name) and x.func.id in ('bin', 'hex', 'oct') and len(x.args) == 1:
+                bad = (x, f'{x.func.id}() drops leading zeros')
+            elif isinstance(x, ast.Call) and isinstance(x.func, ast.Name) and x.func.id == 'format' and len(x.args) == 2 and \
+                    isinstance(x.args[1], ast.Constant) and str(x.args[1].value) in ('b', 'x', 'o', 'X', '#b', '#x', '#o'):
+                bad = (x, f"format(.., {x.args[1].value!r}) has no zero-padded width")
+            elif isinstance(x, ast.FormattedValue) and x.format_spec is not None and ast.unparse(x.format_spec).strip("f'\"") in ('b', 'x', 'o', 'X'):
+                bad = (x, 'f-string integer format without a zero-padded width')
+            if bad:
+                break
+        if bad:
+            r.fail(k, bad[0], f'{bad[1]}: a value with leading zero bits is rendered too short (reached from '
+                   f'{ctx.fmt_path(ctx.path_to(par, node))})', loc=f.loc(bad[0]))
+        else:
+            r.ok(k)
+    return r
